@@ -224,6 +224,35 @@ def exec_semantics(ck, tier, rng):
                 want = start + (3 if where == 1 else 6)
                 if ('File "%s", line %d' % (__file__, want)) not in txt and ('c06.py", line %d' % want) not in txt:
                     ck.fail("remote-traceback-lacks-original-file-and-line", {"where": where, "want_line": want, "text": txt[-600:]})
+            # the same for a function defined INSIDE another one (shipped after its indentation was removed), with blank lines
+            # and comment lines between its statements: every line keeps its number
+            def inner_raising(channel, where):
+                channel.send("before")
+
+                x = 1
+
+                # a comment line
+
+                if where == 1:
+                    raise ValueError("first")   # MARK-1
+
+                y = x + 1
+                # another comment
+
+                raise KeyError(y)               # MARK-2
+
+            ch = gw.remote_exec(inner_raising, where=where)
+            ck.case(("traceback-inner", rd, where), nontrivial=True)
+            try:
+                assert ch.receive(X.T) == "before"
+                ch.receive(X.T)
+                ck.fail("remote-raise-not-reported", {"where": where, "function": "inner"})
+            except RemoteError as e:
+                txt = str(e)
+                lines, start = inspect.getsourcelines(inner_raising)
+                want = start + [i for i, ln in enumerate(lines) if ("MARK-%d" % where) in ln][0]
+                if ('c06.py", line %d' % want) not in txt:
+                    ck.fail("remote-traceback-lacks-original-file-and-line:inner-function", {"where": where, "want_line": want, "text": txt[-600:]})
             # string source: line numbers of the given text (after dedent)
             ch = gw.remote_exec("""
                 x = 1
